@@ -150,6 +150,16 @@ def overlapProjection (patches props : List (Img R)) (probes : List (Img R)) :
   let rs := probes.map (overlapProjection1 patches props)
   (rs.map (·.1), rs.map (·.2))
 
+/-- `forward_operator(obj_patches, shifted_input_probes, descan)`: the overlap projection, then
+`overlap *= fourier_translation_operator(descan, roi_shape)[None]` when a descan shift is given
+(one pattern: `descan = some (r, c)`; the ramp has the shape of the exit wave) -/
+def forwardOperator (patches props probes : List (Img R)) (descan : Option (R × R)) :
+    List (List (Img R)) × List (Img R) :=
+  let res := overlapProjection patches props probes
+  match descan with
+  | none => res
+  | some (r, c) => (res.1, res.2.map fun o => mulImg o (translationOperator (nrows o) (ncols o) r c))
+
 /-! ### detector_models.DetectorPixelated.forward, estimate_amplitudes -/
 /-- `torch.fft.fft2(x, norm="ortho")` -/
 def fft2Ortho (x : Img R) : Img R :=
